@@ -78,7 +78,9 @@ theorem shape_segsExpr : ∀ e : Expr, (segsExpr (shapeE e)).map Seg.shape = (se
   | .divOp x y => by simp [shapeE, segsExpr, shape_segsExpr x, shape_segsExpr y]
   | .mapFilterKeys keep keys m => by
     have hk := shape_strs keys
-    simp only [shapeE, segsExpr, List.map_append, map_shape_joinS, hk, shape_segsExpr m]
+    have he : (keys.map (fun _ => ([] : Bytes))).isEmpty = keys.isEmpty := by cases keys <;> rfl
+    simp only [shapeE, segsExpr, he]
+    split <;> simp only [List.map_append, map_shape_joinS, hk, shape_segsExpr m]
   | .mapAt m key => by simp [shapeE, segsExpr, shape_segsExpr m, Seg.shape]
   | .tupleAt name i => by simp [shapeE]
   | .topkSlice isTop hasLabels k => by simp [shapeE]
@@ -95,6 +97,7 @@ theorem shape_segsExpr : ∀ e : Expr, (segsExpr (shapeE e)).map Seg.shape = (se
       exact List.map_congr_left (fun p _ => shape_dropClause p)
     simp only [shapeE, segsExpr, List.map_append, map_shape_joinS, hd, shape_segsExpr m]
   | .labelsFp => by simp [shapeE]
+  | .quantileAgg units scale col => by simp [shapeE]
 theorem shape_segsSels : ∀ ss : List Sel, (segsSels (shapeSs ss)).map (List.map Seg.shape) = (segsSels ss).map (List.map Seg.shape)
   | [] => by simp [shapeSs, segsSels]
   | s :: ss => by simp [shapeSs, segsSels, shape_segsSel s, shape_segsSels ss]
